@@ -2,5 +2,5 @@
 # runs every claimed check's thorough tier (used with `vp run`), LANES at a time; prints one summary line per property
 cd "$(dirname "$0")/.."
 ./build.sh || exit 1
-python3 -c "import json; print('\n'.join(c['property_id'] for c in json.load(open('MANIFEST.json'))['checks']))" |
+{ if [ -n "$PROPS" ]; then echo $PROPS | tr ' ' '\n'; else python3 -c "import json; print('\n'.join(c['property_id'] for c in json.load(open('MANIFEST.json'))['checks']))"; fi; } |
   xargs -P "${LANES:-2}" -I{} sh -c '/usr/bin/time -f "{} wall=%es" ./check {} --tier thorough 2>&1 | grep -E "^(OK|FAIL|VIOLATION|KNOWN-FINDING|DISAGREEMENT|C[0-9]+ wall)" | cut -c1-400'
